@@ -145,6 +145,13 @@ def directed(poll):
                         "faults": dict(fault),
                         "conns": [{"requests": first + [{"m": "POST", "body": 40, "expect": True, "n": 10, "k": "cl"}], "sndbuf": 2048},
                                   {"requests": [{"n": 50, "k": "cl"}, {"n": 60, "k": "chunks", "w": 7}], "sndbuf": 2048, "pingpong": True}]})
+    # a producer parked above the watermark when its connection fails in the I/O thread with an error that is
+    # not a plain disconnect: it must be released (the only worker has to serve the other connection)
+    for k in (2, 3, 4, 6):
+        out.append({"adj": {"threads": 1, "asyncore_use_poll": poll, "send_bytes": 1, "outbuf_high_watermark": 256}, "sndbuf": 512,
+                    "faults": {"0:send:%d" % k: errno.ETIMEDOUT if k % 2 else errno.EHOSTUNREACH},
+                    "conns": [{"requests": [{"n": 3000, "k": "gen", "w": 200}, {"n": 10, "k": "cl"}], "sndbuf": 512, "pingpong": True},
+                              {"requests": [{"n": 50, "k": "cl"}], "sndbuf": 512, "delay": 0.5}]})
     # the server's own socket map (no map handed in): the wake-up pipe must be in the map the loop polls
     out.append({"adj": {"threads": 1, "asyncore_use_poll": poll, "send_bytes": 1}, "sndbuf": 512, "own_map": True,
                 "conns": [{"requests": [{"n": 513, "k": "cl"}, {"n": 20, "k": "chunks", "w": 7}, {"n": 300, "k": "write", "w": 200, "close": True}],
@@ -174,8 +181,10 @@ def plan(tier, seed):
         if tier == "quick":
             ds = [ds[0], ds[2], ds[6], ds[7], ds[9], ds[10]] + ds[11:]
         for k, scn in enumerate(ds):
-            for p in range(parts):
-                specs.append({"mode": "enum", "scn": scn, "part": p, "parts": parts, "cap": 700 if tier == "quick" else 6000})
+            light = tier == "quick" and (scn.get("faults") or scn.get("own_map"))
+            for p in range(2 if light else parts):
+                specs.append({"mode": "enum", "scn": scn, "part": p, "parts": 2 if light else parts,
+                              "cap": (300 if light else 700) if tier == "quick" else 6000})
     # two pre-emptions: the I/O thread has just read more input (between recv() and the end of
     # received()) when the worker takes over and reaches the end of its service() -- where it may wait
     # for buffer space -- and then the I/O thread is let back in
